@@ -1,5 +1,6 @@
 #!/usr/bin/env python3
-"""confirm a seeded change produced by a sub-agent: usage confirm_mut.py <label> <agent-worktree> <property>
+"""confirm a seeded change produced by a sub-agent: usage confirm_mut.py <label> <agent-worktree> <property> [demo command]
+ (with a demo command - e.g. one that builds the syn2 configuration - the demonstration is that command: exit 0 without the patch, non-zero with it)
  - fresh scratch worktree of /repo HEAD under /tmp/confirm/<label>
  - copy the agent's untracked files (the demonstration) into it
  - run the whole suite without the patch (everything, demo included, must pass)
@@ -7,6 +8,7 @@
  - on success copy patch.diff + demo + notes + meta.json into /verif/seeded/<label>/ ; always remove the scratch worktree"""
 import sys, os, subprocess, json, shutil, re
 label, wt, prop = sys.argv[1], sys.argv[2], sys.argv[3]
+demo_cmd = sys.argv[4] if len(sys.argv) > 4 else None
 scratch = '/tmp/confirm/' + label
 env = dict(os.environ, CARGO_NET_OFFLINE='true')
 
@@ -37,6 +39,10 @@ try:
     res['agent_diffstat'] = o.strip().splitlines()[-3:]
     rc, out, summ, failed = nextest(scratch)
     res['without_patch'] = {'rc': rc, 'summary': summ, 'failed': failed}
+    if demo_cmd:
+        drc, dout = sh(demo_cmd, scratch)
+        res['demo_cmd'] = demo_cmd
+        res['demo_without_patch'] = {'rc': drc, 'tail': dout[-600:]}
     rc, o = sh('git apply %s' % os.path.join(wt, 'out/patch.diff'), scratch)
     res['patch_applies'] = rc == 0
     assert rc == 0, 'patch does not apply: ' + o
@@ -52,6 +58,11 @@ try:
     ok = (res['without_patch']['rc'] == 0 and summ is not None and summ[0] >= 1268 and
           ((summ2 is not None and not pre_existing_failed and len(failed2) > 0) or False))
     res['confirmed'] = bool(ok)
+    if demo_cmd:
+        drc2, dout2 = sh(demo_cmd, scratch)
+        res['demo_with_patch'] = {'rc': drc2, 'tail': dout2[-1200:]}
+        res['confirmed'] = bool(res['without_patch']['rc'] == 0 and summ and summ[0] >= 1268 and summ2 is not None and not pre_existing_failed
+                                and res['demo_without_patch']['rc'] == 0 and drc2 != 0)
     if compile_broke:
         # a demo whose failure is a compile error of generated code: check that the pre-existing suite alone still passes
         for f in demo:
@@ -77,7 +88,8 @@ if res.get('confirmed'):
         os.makedirs(os.path.dirname(d), exist_ok=True)
         shutil.copy(os.path.join(wt, f), d)
     meta = {'property': prop, 'label': label, 'confirmed_by': 'tools/confirm_mut.py', 'what_ran': {
-        'without_patch': res['without_patch'], 'with_patch': res.get('with_patch'), 'with_patch_without_demo': res.get('with_patch_without_demo')},
+        'without_patch': res['without_patch'], 'with_patch': res.get('with_patch'), 'with_patch_without_demo': res.get('with_patch_without_demo'),
+        'demo_cmd': res.get('demo_cmd'), 'demo_without_patch': res.get('demo_without_patch'), 'demo_with_patch': res.get('demo_with_patch')},
         'demo_files': res.get('demo_files'), 'needs': 'see notes.md', 'detected_by': None}
     json.dump(meta, open(os.path.join(dst, 'meta.json'), 'w'), indent=1)
 print(json.dumps(res, indent=1)[:6000])
